@@ -6,6 +6,7 @@ from .. import gen
 from ..ref import bip32 as rb32, addr as raddr, path as rpath
 from .c14 import leaves
 from .. import longrun
+from ..core import fresh_str
 
 PROP = "C16"
 LEVEL = "exploration"
@@ -18,7 +19,7 @@ RULE = ("both networks x random seeds x accounts/intervals x every output-produc
         "wasabi_json) + wallets re-imported from each of the 12 version prefixes; every string leaf is classified by an "
         "independent network classifier (Base58 version byte, Bech32 hrp, SLIP-132 version, coin component of BIP44-shaped "
         "paths); distinct = distinct (monitor, case) digests"
-        " EXTENSIONS: + nodes the caller parsed with the other / the default network flag handed to the wallet, caller edits of returned version lists before an import, one listing of 2^15+600 rows in fast mode, accounts equal to meaningful numbers, node-level testnet listings of K+3 rows per harvested threshold K (rows and their children classified)")
+        " EXTENSIONS: + nodes the caller parsed with the other / the default network flag handed to the wallet, caller edits of returned version lists before an import, one listing of 2^15+600 rows in fast mode, accounts equal to meaningful numbers, node-level testnet listings of K+3 rows per harvested threshold K (rows and their children classified), every purpose 0'..255' / 0..255 on both networks, numbers new against the pinned tree as purposes / coin types / accounts, fresh-string address kinds")
 LEVEL_TEXT = ("Every network-tagged string a real wallet emits is decoded independently and must carry the wallet's own "
               "network; a leaf that classifies as the other network is the violation, unclassifiable leaves are counted and "
               "ignored. Re-import from each of the 12 prefixes must set the network from the prefix alone and everything the "
@@ -64,7 +65,7 @@ def scan(ctx, what, emitted, tn, case, cls):
     return classified
 
 
-def emit_all(w, tn, rnd, private, account, s, e):
+def emit_all(w, tn, rnd, private, account, s, e, extra_paths=()):
     """Everything network-tagged the wallet can say, as a dict of named outputs; the requests are issued in a RANDOM
     order on the same wallet object (state left by one request must not change the network tag of another)."""
     out = {}
@@ -72,8 +73,10 @@ def emit_all(w, tn, rnd, private, account, s, e):
     paths = [[]]
     for _ in range(3):
         L = rnd.randrange(1, 5)
-        paths.append([rnd.choice([0, 1, 44 + H, 49 + H, 84 + H, H, H + 1, rnd.randrange(0, 2 * H)]) if private
-                      else rnd.choice([0, 1, rnd.randrange(0, H)]) for _ in range(L)])
+        paths.append([rnd.choice([0, 1, 44 + H, 49 + H, 84 + H, H, H + 1, rnd.randrange(0, 2 * H), rnd.choice(gen.meaningful()) % H + H,
+                                  rnd.randrange(0, 128) + H]) if private
+                      else rnd.choice([0, 1, rnd.randrange(0, H), rnd.choice(gen.meaningful()) % H]) for _ in range(L)])
+    paths += [list(p_) for p_ in extra_paths]
     jobs = []
 
     def path_job(p):
@@ -81,7 +84,7 @@ def emit_all(w, tn, rnd, private, account, s, e):
             node = master.derive_path(index_list=list(p))
             key = rpath.fmt(p)
             out["addresses:" + key] = [getattr(w, k + "_address")(node) for k in KINDS]
-            out["pk_address:" + key] = [node.public_key.address(testnet=w.testnet, addr_type=t) for t in ("p2pkh", "p2wpkh")]
+            out["pk_address:" + key] = [node.public_key.address(testnet=w.testnet, addr_type=fresh_str(t)) for t in ("p2pkh", "p2wpkh")]
             nk = w.node_extended_keys(node)
             out["node_extended_keys:" + key] = [nk["pub"], nk["prv"]]   # (the 'path' text of arbitrary nodes is not BIP44-shaped output)
             out["default_xpub:" + key] = node.extended_public_key()
@@ -131,11 +134,34 @@ def judge_wallet(ctx, case):
     rnd = ctx.rnd
     w = PaperWallet.from_bip39_seed_bytes(bip39_seed=case["seed"], testnet=tn)
     try:
-        out = emit_all(w, tn, rnd, True, case["account"], case["start"], case["end"])
+        out = emit_all(w, tn, rnd, True, case["account"], case["start"], case["end"], extra_paths=case.get("extra_paths", ()))
     except Exception as ex:  # noqa
         return ctx.judge("leaf_network", False, case, "outputs", ex, cls="raised", mech="C16.emit.raised")
     for what, val in out.items():
         scan(ctx, what.split(":")[0], val, tn, case, "seed")
+
+
+_SPW = {}
+
+
+def judge_small_purpose(ctx, case):
+    from btc_hd_wallet.paper_wallet import PaperWallet
+    tn, pnum = case["testnet"], case["purpose"]
+    key = (case["seed"], tn)
+    if key not in _SPW:
+        _SPW.clear()
+        _SPW[key] = PaperWallet.from_bip39_seed_bytes(bip39_seed=case["seed"], testnet=tn)
+    w = _SPW[key]
+    out = {}
+    try:
+        for path in ([pnum + H, (1 if tn else 0) + H, H], [pnum + H], [pnum, 0]):
+            node = w.master.derive_path(index_list=list(path))
+            nk = w.node_extended_keys(node)
+            out[rpath.fmt(path)] = [nk["pub"], nk["prv"], w.node_extended_public_key(node), w.node_extended_private_key(node),
+                                    node.extended_public_key(), w.p2wpkh_address(node)]
+    except Exception as ex:  # noqa
+        return ctx.judge("leaf_network", False, case, "outputs", ex, cls="small-purpose|raised", mech="C16.emit.raised")
+    return scan(ctx, "small_purpose", out, tn, case, "purpose%s" % ("-known" if pnum in (44, 49, 84) else ""))
 
 
 def judge_reimport(ctx, case):
@@ -206,6 +232,20 @@ def run(ctx):
         s = 0 if r < 0.4 else (H - 3 if r < 0.5 else rnd.randrange(0, H - 4))
         judge_wallet(ctx, {"seed": gen.rbytes(rnd, rnd.choice([16, 32, 64])), "testnet": bool((j + ctx.shard) & 1),
                            "account": gen.account(rnd), "start": s, "end": s + rnd.randrange(0, 4)})
+    # purposes / coin types / accounts equal to numbers a change has just written into the code (vpkg.harvest: constants and digits
+    # inside identifiers), hardened and not, on both networks
+    for vi, v in enumerate(gen.new_numbers()):
+        if ctx.mine(vi):
+            for tn_ in (True, False):
+                judge_wallet(ctx, {"seed": gen.rbytes(rnd, 32), "testnet": tn_, "account": v, "start": 0, "end": 1,
+                                   "extra_paths": [[v + H, (1 if tn_ else 0) + H, H], [v + H], [v], [44 + H, v + H, H], [84 + H, (1 if tn_ else 0) + H, v + H, 0, v]]})
+    # every small purpose 0' .. 255' (and 0 .. 255 unhardened) as first path component, both networks: what the wallet prints for
+    # the node below it carries the wallet's network whatever flavour - known or not - the purpose selects
+    sp_seed = gen.rbytes(rnd, 32)
+    for pnum in range(256):
+        if ctx.mine(pnum):
+            judge_small_purpose(ctx, {"seed": sp_seed, "testnet": bool(pnum & 1) or pnum % 4 == 2, "purpose": pnum})
+            judge_small_purpose(ctx, {"seed": sp_seed, "testnet": not (bool(pnum & 1) or pnum % 4 == 2), "purpose": pnum})
     vers = sorted(rb32.SLIP132_INV)
     for j0 in range(ctx.scale(96, 3000)):
         j = j0 * ctx.nshards + ctx.shard
@@ -239,6 +279,8 @@ def replay(ctx, monitor, case):
     case.pop("what", None)
     if "side" in case:
         return judge_long_node_listing(ctx, case)
+    if "purpose" in case:
+        return judge_small_purpose(ctx, case)
     if "version" in case:
         judge_reimport(ctx, case)
     else:
